@@ -265,6 +265,8 @@ def empty_candidates(ctx):
         sh = [rng.choice([0, 0, 1, 2, 3]) for _ in range(rng.randint(2, 4))]
         if not any(sh):
             sh[-1] = 2
+        if all(sh):
+            sh[rng.randrange(len(sh) - 1)] = 0  # at least one statement-less file, never the only non-empty one
         shapes.append(sh)
     sens, other = [], []
     for si, shape in enumerate(shapes):
@@ -277,6 +279,8 @@ def empty_candidates(ctx):
             for mode in ("all", "file", "none"):
                 for dk in ("nodir", "E:none", "E:file", "F:none", "F:file"):
                     if mode == "all" and dk != "nodir" and rng.random() > 0.1:
+                        continue
+                    if dk[0] == "E" and not E:
                         continue
                     for start in ["fresh", "revtable", "dirty"] + (["prefix"] if F > 0 else []):
                         k = rng.randint(1, F) if start == "prefix" else 0
